@@ -239,15 +239,15 @@ for cont in (True, False):
         S = 10**10
         w = drf.DigitalRFWriter(top + '/ch', 'i4', 3600, 1000, S, 100, 1, 'u', is_complex=False, num_subchannels=nsub, is_continuous=cont, marching_periods=False)
         data = (np.arange(30 * nsub, dtype='i4').reshape(30, nsub) + 1000)
-        G = [S + 5, S + 40, S + 70][:kw.get('L', 3)]; B = [0, 10, 20][:kw.get('L', 3)]
+        G = [5, 40, 70][:kw.get('L', 3)]; B = [0, 10, 20][:kw.get('L', 3)]      # global indices are relative to the start index
         nxt = w.rf_write_blocks(data, G, B)
         w.close()
         ends = B[1:] + [30]
         if nxt != G[-1] + (30 - B[-1]): print('cont=%%s nsub=%%d: returned next sample %%d' %% (cont, nsub, nxt)); bad = 1
         r = drf.DigitalRFReader(top)
         for g, b, e in zip(G, B, ends):
-            got = r.read_vector_raw(g, e - b, 'ch').reshape(e - b, nsub)
-            if not np.array_equal(got, data[b:e]): print('cont=%%s nsub=%%d: block at +%%d reads back %%s..., written %%s...' %% (cont, nsub, g - S, got[0], data[b])); bad = 1
+            got = r.read_vector_raw(S + g, e - b, 'ch').reshape(e - b, nsub)
+            if not np.array_equal(got, data[b:e]): print('cont=%%s nsub=%%d: block at +%%d reads back %%s..., written %%s...' %% (cont, nsub, g, got[0], data[b])); bad = 1
         shutil.rmtree(top)
 sys.exit(1 if bad else 0)
 '''
